@@ -67,6 +67,11 @@ class Chunk(Blockwise):
     def _kwargs(self) -> dict:
         return self.chunk_kwargs or {}
 
+    def _divisions(self):
+        # The output of a chunk function is labelled by whatever the reduction
+        # produces (group keys, column names, ...), not by the input's index
+        return (None,) * (self.frame.npartitions + 1)
+
     def _tree_repr_lines(self, indent=0, recursive=True):
         header = f"{funcname(self.kind)}({funcname(type(self))}):"
         lines = []
